@@ -12,7 +12,7 @@ import pandas as pd
 from sklearn.base import BaseEstimator, ClassifierMixin
 from sklearn.model_selection import KFold as RealKFold
 
-from sim.core import EndRun, close
+from sim.core import EndRun, Violation, close
 from sim.seams import rebind
 
 PROP = "C19"
@@ -23,11 +23,12 @@ RULE = (
     "label with renamed / missing / extra column, label with 2 rows - issued whether legal or not; x sensitivity x k x oracle "
     "length (None or >= k) x reference size x margin width; after every move: refusal exactly when the protocol says so, "
     "refused moves change no observable, state / waiting flag / margin density / reference statistics / counters equal the "
-    "model's. Non-trivial: >=1 completed oracle round; distinct = digests."
+    "model's; scenario svc: a real linear sklearn SVC with MD3's default margin function (judged against the shipped reading of "
+    "'in the margin', or the textbook one if the detector follows that consistently). Non-trivial: >=1 completed oracle round; distinct = digests."
 )
 STATE_MEASURE = "distinct (protocol state [idle / waiting(n labels)], move kind, accepted?) triples"
 WHITE_BOX = []
-STUBS = ["classifier: deterministic threshold rule on feature a (sklearn-cloneable; fit learns the threshold)",
+STUBS = ["classifier: deterministic threshold rule on feature a (sklearn-cloneable; fit learns the threshold) - except scenario svc, which runs a real sklearn.svm.SVC",
          "margin function: |a - threshold| <= margin", "sklearn KFold wrapped by a recording subclass (real splits)"]
 MOVES = ["update", "update2", "label", "label_perm", "label_renamed", "label_missing", "label_extra", "label2"]
 
@@ -52,6 +53,28 @@ def margin_fn(det, sample, clf):
     return int(abs(sample[0] - clf.t_) <= clf.margin)
 
 
+# ---- classifier kits: "stub" (deterministic threshold rule + user margin function) and "svc" (a real linear
+# sklearn.svm.SVC with MD3's DEFAULT margin function, the configuration the class documents as its default)
+def make_clf(cfg):
+    if cfg.get("clf") == "svc":
+        from sklearn.svm import SVC
+
+        return SVC(kernel="linear", C=cfg.get("C", 1.0))
+    return Stub(cfg["margin"])
+
+
+def signal(cfg, clf, x, variant=0):
+    """margin-inclusion signal of one sample.  For the real SVC the property does not pin the formula of the default
+    function: variant 0 is the shipped one (|w.x + intercept / w[1]| <= 1), variant 1 the textbook margin
+    (|w.x + intercept| <= 1); a detector is judged against whichever it follows consistently (see run())."""
+    if cfg.get("clf") == "svc":
+        w = np.array(clf.coef_[0], dtype=float)
+        b = float(clf.intercept_[0])
+        v = abs(float(np.dot(w, x)) + (b / w[1] if variant == 0 else b))
+        return int(v <= 1), abs(v - 1)
+    return int(abs(x[0] - clf.t_) <= cfg["margin"]), abs(abs(x[0] - clf.t_) - cfg["margin"])
+
+
 ENUM_KINDS = ["update_in", "update_out", "label_ok", "label_wrong", "update2", "label_renamed"]
 ENUM_DEPTH = {"quick": 5, "thorough": 6}
 INDEXED_SCENARIOS = ("enum",)
@@ -65,7 +88,7 @@ def scenarios(tier):
     k = 1 if tier == "quick" else 10
     # "enum": index-derived enumeration of EVERY interleaving of 6 move kinds up to a bounded length on one small
     # configuration (the property's own quantifier for short histories); supplementary to the seeded interleavings
-    return [("protocol", 260 * k), ("legal", 60 * k), ("enum", _enum_total(ENUM_DEPTH[tier]))]
+    return [("protocol", 260 * k), ("legal", 60 * k), ("svc", 90 * k), ("enum", _enum_total(ENUM_DEPTH[tier]))]
 
 
 def gen_indexed(scenario, i, tier):
@@ -115,6 +138,9 @@ def gen(rng, scenario, tier):
            "margin": rng.choice([0.3, 0.6, 1.0])}
     if cfg["oracle_len"] is not None and cfg["oracle_len"] < k:
         cfg["oracle_len"] = k   # scikit-learn itself refuses a k-fold split of fewer than k rows
+    if scenario == "svc":   # a real linear SVC and MD3's default margin function; enough labelled rows for both classes in every fold
+        cfg.update(clf="svc", C=rng.choice([0.1, 1.0, 10.0]), oracle_len=rng.choice([None, 8, 12, 16]))
+        cfg["k"] = rng.randint(2, 4)
     ref = [_row(rng, 0.0, 0.0) for _ in range(N)]
     ev = []
     shift, flip = 0.0, 0.0
@@ -147,6 +173,7 @@ class Harness:
         import menelaus.concept_drift.md3 as mm
 
         self.mm, self.ctx, self.cfg = mm, ctx, case["cfg"]
+        self.variant = case.get("signal_variant", 0)
         self.splits = []
         harness = self
 
@@ -161,7 +188,8 @@ class Harness:
     def refstats(self, df):
         """mean / std over the recorded folds of margin density and accuracy (the folds must partition the rows)."""
         cfg = self.cfg
-        X, y = df[["a", "b"]].to_numpy(dtype=float), df["y"].to_numpy()
+        Xdf = df[["a", "b"]]
+        X, y = Xdf.to_numpy(dtype=float), df["y"].to_numpy()
         folds = self.splits[-cfg["k"]:]
         ok = len(folds) == cfg["k"] and all(f[2] == len(df) for f in folds) and \
             sorted(np.concatenate([f[1] for f in folds]).tolist()) == list(range(len(df)))
@@ -172,9 +200,13 @@ class Harness:
             raise EndRun()
         mds, accs = [], []
         for tr, te, _ in folds:
-            c = Stub(cfg["margin"]).fit(X[tr], y[tr])
-            mds.append(float(np.mean([abs(x[0] - c.t_) <= cfg["margin"] for x in X[te]])))
-            accs.append(float(np.mean(c.predict(X[te]) == y[te])))
+            try:
+                c = make_clf(cfg).fit(Xdf.iloc[tr], y[tr])
+            except ValueError:
+                self.ctx.note("reference_outside_classifier_domain")    # e.g. one class only in a training fold (SVC refuses)
+                raise EndRun()
+            mds.append(float(np.mean([signal(cfg, c, x, self.variant)[0] for x in X[te]])))
+            accs.append(float(np.mean(c.predict(Xdf.iloc[te]) == y[te])))
         return {"len": len(df), "md": float(np.mean(mds)), "md_std": float(np.std(mds)), "acc": float(np.mean(accs)), "acc_std": float(np.std(accs))}
 
     def check_ref(self, det, st, where):
@@ -206,6 +238,25 @@ def _snapshot(det):
 
 
 def run(case, ctx, lifecycle=False):
+    if case["cfg"].get("clf") != "svc":
+        return _run(case, ctx, lifecycle)
+    # real SVC + MD3's default margin function: judged against the shipped reading of "in the margin" and, only if that
+    # fails, against the textbook one - the property pins the protocol and the recurrence, not that formula
+    try:
+        return _run(dict(case, signal_variant=0), ctx, lifecycle)
+    except Violation as v0:
+        try:
+            _run(dict(case, signal_variant=1), ctx, lifecycle)
+        except Violation:
+            raise v0
+        ctx.note("default_margin_function_follows_textbook_formula")
+
+
+def _sklearn_domain(e):
+    return isinstance(e, ValueError) and "number of classes" in str(e)
+
+
+def _run(case, ctx, lifecycle=False):
     from menelaus.concept_drift import MD3
 
     cfg = case["cfg"]
@@ -218,10 +269,22 @@ def run(case, ctx, lifecycle=False):
             idx = list(range(len(ref)))
             idx = idx[len(idx) // 3:] + idx[: len(idx) // 3][::-1]     # a permuted integer index (as after df.sample(frac=1))
             ref.index = idx
-        clf = Stub(cfg["margin"]).fit(ref[["a", "b"]], ref["y"])
-        det = ctx.call("C19:ctor", MD3, clf, margin_calculation_function=margin_fn, sensitivity=cfg["sensitivity"], k=cfg["k"],
-                       oracle_data_length_required=cfg["oracle_len"])
-        ctx.call("C19:set_reference", det.set_reference, ref, target_name="y")
+        try:
+            clf = make_clf(cfg).fit(ref[["a", "b"]], ref["y"])
+        except ValueError:
+            raise EndRun()
+        if cfg.get("clf") == "svc":     # the class's documented default: an SVC and its own margin function
+            det = ctx.call("C19:ctor", MD3, clf, sensitivity=cfg["sensitivity"], k=cfg["k"], oracle_data_length_required=cfg["oracle_len"])
+        else:
+            det = ctx.call("C19:ctor", MD3, clf, margin_calculation_function=margin_fn, sensitivity=cfg["sensitivity"], k=cfg["k"],
+                           oracle_data_length_required=cfg["oracle_len"])
+        try:
+            det.set_reference(ref, target_name="y")
+        except Exception as e:  # noqa: BLE001
+            if _sklearn_domain(e):
+                ctx.note("reference_outside_classifier_domain")
+                raise EndRun()
+            ctx.call("C19:set_reference", det.set_reference, ref, target_name="y")
         if missing:
             raise EndRun()
         st = h.refstats(ref)
@@ -249,8 +312,11 @@ def run(case, ctx, lifecycle=False):
             try:
                 call()
                 raised = None
-            except ValueError:
+            except ValueError as e:
                 raised = "ValueError"
+                if legal and _sklearn_domain(e):
+                    ctx.note("reference_outside_classifier_domain")     # the labelled samples hold one class only: SVC cannot be cross-validated
+                    raise EndRun()
             except Exception as e:  # noqa: BLE001
                 raised = type(e).__name__
             ctx.sim_time += 1
@@ -284,7 +350,10 @@ def run(case, ctx, lifecycle=False):
                     md, state, since = st["md"], None, 0
                 since += 1
                 x = X.to_numpy(dtype=float)[0]
-                md = ff * md + (1 - ff) * int(abs(x[0] - clf.t_) <= cfg["margin"])
+                sgn, smargin = signal(cfg, clf, x, h.variant)
+                if cfg.get("clf") == "svc" and smargin <= 1e-9:
+                    ctx.near_tie()
+                md = ff * md + (1 - ff) * sgn
                 lvl, thr = abs(md - st["md"]), cfg["sensitivity"] * st["md_std"]
                 margin = abs(lvl - thr)
                 if lvl > thr:
